@@ -313,14 +313,23 @@ shared_ptr<IDataArray> BlockHDF5::createDataArray(const std::string &name,
     if (shape.size() == 0) {
         throw InvalidRank("Block::createDataArray: cannot create 0-dimensional data");
     }
+    if (shape.size() > H5S_MAX_RANK) {
+        throw InvalidRank("Block::createDataArray: HDF5 cannot store data with more than 32 dimensions");
+    }
     string id = util::createId();
     boost::optional<H5Group> g = data_array_group(true);
 
     H5Group group = g->openGroup(name, true);
     auto da = make_shared<DataArrayHDF5>(file(), block(), group, id, type, name);
 
-    // now create the actual H5::DataSet
-    da->createData(data_type, shape, compression == Compression::Auto ? compr : compression);
+    // now create the actual H5::DataSet; whatever HDF5 refuses here (e.g. the chunking guessed for the shape)
+    // must not leave the group of the array behind
+    try {
+        da->createData(data_type, shape, compression == Compression::Auto ? compr : compression);
+    } catch (...) {
+        g->removeGroup(name);
+        throw;
+    }
     return da;
 }
 
